@@ -95,7 +95,7 @@ def typedef_table(hdr, extra=()):
     tab, qual = {}, {}
     for f in sorted(glob.glob(hdr + "/*.h")) + [x for x in extra if os.path.exists(x)]:
         txt = open(f, errors="replace").read()
-        classes = [(m.start(), m.group(1)) for m in re.finditer(r'\bclass\s+(?:EXPCL_\w+\s+)?(\w+)\b[^;{]*\{', txt)]
+        classes = [(m.start(), m.group(1)) for m in re.finditer(r'\bclass\s+(?:EXPCL_\w+\s+)?(\w+)\b[^;{]*\{', X.blank(txt))]
         for m in TYPEDEF_RX.finditer(txt):
             tgt = re.sub(r'\s+', ' ', m.group(1))
             tab.setdefault(m.group(2), set()).add(tgt)
